@@ -22,7 +22,8 @@ CONSTANTS
   FsDomain,     \* TRUE: only key sets within the fs backends' key domain
   CfgName,
   Shard, Shards, \* (reserved)
-  Markers       \* TRUE: add single-page queries under arbitrary markers (paginating backends)
+  Markers,      \* TRUE: add single-page queries under arbitrary markers (paginating backends)
+  EmptySegs     \* TRUE: only key sets holding a key with an empty segment (a//b: legal on the key-value backends)
 
 VARIABLES ks
 vars == <<ks>>
@@ -41,14 +42,17 @@ AllSeqs(n)   == UNION {SeqsOfLen(i) : i \in 1..n}
 Segs(k) == LET cuts == {0, Len(k) + 1} \cup {i \in 1..Len(k) : k[i] = 47}
                NextCut(a) == CHOOSE x \in cuts : x > a /\ \A y \in cuts : ~(y > a /\ y < x) IN
            {SubSeq(k, a + 1, NextCut(a) - 1) : a \in cuts \ {Len(k) + 1}}
-GoodKey(k) == /\ k[1] # 47 /\ k[Len(k)] # 47 /\ \A i \in 1..(Len(k) - 1) : ~(k[i] = 47 /\ k[i + 1] = 47)
+HasEmptySeg(k) == \E i \in 1..(Len(k) - 1) : k[i] = 47 /\ k[i + 1] = 47
+GoodKey(k) == /\ k[1] # 47 /\ k[Len(k)] # 47 /\ (EmptySegs \/ ~HasEmptySeg(k))
               /\ <<46>> \notin Segs(k) /\ <<46, 46>> \notin Segs(k)
 Universe   == {k \in AllSeqs(MaxLen) : GoodKey(k)}
 \* fs key domain: no key is a directory of another key
 DirOf(a, b) == Len(a) < Len(b) /\ SubSeq(b, 1, Len(a)) = a /\ b[Len(a) + 1] = 47
 FsOK(S) == \A a, b \in S : ~DirOf(a, b)
 
-KeySets == {S \in UNION {kSubset(n, Universe) : n \in 0..MaxSet} : FsDomain => FsOK(S)}
+KeySets == {S \in UNION {kSubset(n, Universe) : n \in 0..MaxSet} :
+               /\ FsDomain => FsOK(S)
+               /\ EmptySegs => \E k \in S : HasEmptySeg(k)}
 
 PrefixSet == {<<>>} \cup {p \in AllSeqs(PrefixLen) : p[1] # 47}
 \* a delimiter is usable when no live key starts or ends with it
